@@ -93,6 +93,9 @@ def run(ctx):
 
 
 def signature(case, agree, strict, relaxed):
-    if case["kind"] == "sample" and real_mismatch(case) and (("err" in case) or (agree and not strict)):
+    # K3 is identified by its input class: batched parameters whose per-lane shapes differ in rank.  On
+    # such inputs the rule either fails to broadcast, pairs lanes wrongly (the model reproduces this) or
+    # returns an extra dimension (outside the model's shape family); all are the same recorded defect.
+    if case["kind"] == "sample" and real_mismatch(case) and (("err" in case) or not strict):
         return "K3-rank-mismatch"
     return None
